@@ -331,6 +331,8 @@ func (c *Client) SetRedirectPolicy(policies ...RedirectPolicy) *Client {
 	if len(policies) == 0 {
 		return c
 	}
+	// keep a copy: a slice passed as policies... stays the caller's, who may reuse it
+	policies = append([]RedirectPolicy(nil), policies...)
 	c.httpClient.CheckRedirect = func(req *http.Request, via []*http.Request) error {
 		for _, f := range policies {
 			if f == nil {
